@@ -1,6 +1,5 @@
-import json
 from mindsdb_sql.parser.ast.base import ASTNode
-from mindsdb_sql.parser.utils import indent
+from mindsdb_sql.parser.utils import indent, dump_option_value
 
 
 class CreateDatabase(ASTNode):
@@ -48,7 +47,7 @@ class CreateDatabase(ASTNode):
             engine_str = f'ENGINE = {repr(self.engine)} '
 
         parameters_str = ''
-        if self.parameters:
-            parameters_str = f', PARAMETERS = {json.dumps(self.parameters)}'
+        if self.parameters is not None:
+            parameters_str = f', PARAMETERS = {dump_option_value(self.parameters, json_style=True)}'
         out_str = f'CREATE{replace_str} DATABASE {"IF NOT EXISTS " if self.if_not_exists else ""}{self.name.to_string()} {engine_str}{parameters_str}'
         return out_str
